@@ -2,7 +2,8 @@
     used: bool, option, unit, list, prod, sumbool, sumor map to OCaml's own
     types; positive, N, Z and nat stay the extracted inductive types. *)
 From Coq Require Import Extraction ExtrOcamlBasic.
-From E57 Require Import Base.Prelude Model.Crc Model.Device Model.PagedWriter Model.PagedReader Spec.PageSpec.
+From E57 Require Import Base.Prelude Model.Crc Model.Device Model.PagedWriter Model.PagedReader Spec.PageSpec
+  Model.BsWrite Model.BsRead Model.Record Spec.BitSpec.
 
 Extraction Language OCaml.
 Separate Extraction
@@ -12,4 +13,8 @@ Separate Extraction
   Device.dev_init Device.apply_writes
   PagedWriter.pw_new PagedWriter.pw_run PagedWriter.pw_drop
   PagedReader.pr_new PagedReader.pr_run
+  BsWrite.bsw_new BsWrite.bsw_add_bits BsWrite.bsw_add_bytes BsWrite.bsw_get_full_bytes BsWrite.bsw_get_all_bytes BsWrite.bsw_full_bytes
+  BsRead.bsr_new BsRead.bsr_append BsRead.bsr_extract BsRead.bsr_available
+  Record.bit_size Record.dtype_write Record.unpack_type Record.write_values Record.feed_chunks Record.value_matches
+  BitSpec.spec_bit_size BitSpec.spec_stream_bytes BitSpec.spec_decode_stream BitSpec.in_range BitSpec.type_ok
   PageSpec.paginate PageSpec.strip_crc PageSpec.all_pages_valid PageSpec.ls_init PageSpec.ls_run PageSpec.lr_run.
